@@ -729,6 +729,50 @@ fn noncanonical(kind: u64, base: &[u8; 32]) -> [u8; 32] {
     }
 }
 
+
+fn decode_case(len: usize, fb: u8, nc: usize, kind: u64, seed: u64, idx: u64) -> (String, Option<String>) {
+                                                                let mut rng = ChaCha12Rng::seed_from_u64(seed ^ idx.wrapping_mul(0x9e3779b97f4a7c15));
+                let mut bytes = Vec::with_capacity(len);
+                if len > 0 {
+                    bytes.push(fb);
+                }
+                let mut chunk = 0usize;
+                while bytes.len() + 32 <= len {
+                    chunk += 1;
+                    let mut w = [0u8; 64];
+                    rng.fill_bytes(&mut w);
+                    let s = Scalar::from_bytes_mod_order_wide(&w).to_bytes();
+                    bytes.extend_from_slice(&if chunk == nc { noncanonical(kind, &s) } else { s });
+                }
+                while bytes.len() < len {
+                    bytes.push((rng.next_u32() & 0xff) as u8);
+                }
+                let r = RangeProof::<P>::from_bytes(&bytes);
+                let mut extra = None;
+                // serde (bincode: u64 length prefix, then the same bytes) accepts and produces exactly the same strings
+                let mut framed = (bytes.len() as u64).to_le_bytes().to_vec();
+                framed.extend_from_slice(&bytes);
+                let rs: Result<RangeProof<P>, _> = bincode::deserialize(&framed);
+                if rs.is_ok() != r.is_ok() {
+                    extra = Some(format!("serde form {} a string from_bytes {}", okerr(&rs), okerr(&r)));
+                }
+                if let Ok(p) = &r {
+                    if p.to_bytes() != bytes {
+                        extra = Some("decoded proof re-encodes to different bytes".to_string());
+                    } else if bincode::serialize(p).ok() != Some(framed) {
+                        extra = Some("serde encoding differs from to_bytes".to_string());
+                    } else if p.extension_degree() as u8 != fb || RangeProof::<P>::extension_degree_from_proof_bytes(&bytes).map(|d| d as u8).ok() != Some(fb) {
+                        extra = Some("extension degree getter differs from the tag byte".to_string());
+                    } else if let Ok(q) = rs {
+                        if q != *p {
+                            extra = Some("serde-decoded proof differs from from_bytes".to_string());
+                        }
+                    }
+                }
+                (okerr(&r).into(), extra)
+            
+}
+
 /// Execute one case; returns (observed outcome, optional detail of a secondary mismatch)
 pub fn run_case(c: &Value, seed: u64, idx: u64) -> (String, Option<String>) {
     let op = c["op"].as_str().unwrap();
@@ -832,48 +876,20 @@ pub fn run_case(c: &Value, seed: u64, idx: u64) -> (String, Option<String>) {
                 (okerr(&r).into(), extra)
             },
             "decode" => {
-                let len = u("len");
-                let fb = u("fb") as u8;
-                let nc = u("nc");
-                let mut rng = ChaCha12Rng::seed_from_u64(seed ^ idx.wrapping_mul(0x9e3779b97f4a7c15));
-                let mut bytes = Vec::with_capacity(len);
-                if len > 0 {
-                    bytes.push(fb);
-                }
-                let mut chunk = 0usize;
-                while bytes.len() + 32 <= len {
-                    chunk += 1;
-                    let mut w = [0u8; 64];
-                    rng.fill_bytes(&mut w);
-                    let s = Scalar::from_bytes_mod_order_wide(&w).to_bytes();
-                    bytes.extend_from_slice(&if chunk == nc { noncanonical(rng.next_u64(), &s) } else { s });
-                }
-                while bytes.len() < len {
-                    bytes.push((rng.next_u32() & 0xff) as u8);
-                }
-                let r = RangeProof::<P>::from_bytes(&bytes);
-                let mut extra = None;
-                // serde (bincode: u64 length prefix, then the same bytes) accepts and produces exactly the same strings
-                let mut framed = (bytes.len() as u64).to_le_bytes().to_vec();
-                framed.extend_from_slice(&bytes);
-                let rs: Result<RangeProof<P>, _> = bincode::deserialize(&framed);
-                if rs.is_ok() != r.is_ok() {
-                    extra = Some(format!("serde form {} a string from_bytes {}", okerr(&rs), okerr(&r)));
-                }
-                if let Ok(p) = &r {
-                    if p.to_bytes() != bytes {
-                        extra = Some("decoded proof re-encodes to different bytes".to_string());
-                    } else if bincode::serialize(p).ok() != Some(framed) {
-                        extra = Some("serde encoding differs from to_bytes".to_string());
-                    } else if p.extension_degree() as u8 != fb || RangeProof::<P>::extension_degree_from_proof_bytes(&bytes).map(|d| d as u8).ok() != Some(fb) {
-                        extra = Some("extension degree getter differs from the tag byte".to_string());
-                    } else if let Ok(q) = rs {
-                        if q != *p {
-                            extra = Some("serde-decoded proof differs from from_bytes".to_string());
-                        }
+                // every kind of non-canonical encoding is tried for the chunk the case names
+                let kinds: Vec<u64> = if u("nc") == 0 { vec![0] } else { vec![0, 1, 2, 3] };
+                let mut first: Option<(String, Option<String>)> = None;
+                for kind in kinds {
+                    let r = decode_case(u("len"), u("fb") as u8, u("nc"), kind, seed, idx);
+                    let exp = c["expect"].as_str().unwrap_or("?");
+                    if r.0 != exp || r.1.is_some() {
+                        return (r.0, Some(format!("{} [non-canonical kind {}]", r.1.unwrap_or_default(), kind)));
+                    }
+                    if first.is_none() {
+                        first = Some(r);
                     }
                 }
-                (okerr(&r).into(), extra)
+                first.unwrap()
             },
             "decode_raw" => {
                 // uniformly random bytes of the given length: a value or an error, and a value re-encodes to its input
